@@ -52,6 +52,31 @@ func runC07(c *Ctx) {
 			ops[i].URI = "wamp.session.count"
 		}
 	}
+	// In a quarter of the runs a scripted epilogue for the one bounded exception: a caller with a
+	// tiny queue stops reading for minutes, has its queue filled, and calls (asking for progress)
+	// a callee that streams progressive results; the callee's YIELDs are held back for that
+	// caller - for at most the result-retry period, after which the callee's own later request
+	// (a SUBSCRIBE queued behind the held-back YIELD) must have been answered.
+	streamCallee, deafCaller := -1, -1
+	if g.Chance(1, 4) {
+		x := g.Intn(ns)
+		y := (x + 1 + g.Intn(ns-1)) % ns
+		streamCallee, deafCaller = x, y
+		staller[y], staller[x] = true, false
+		t0 := time.Duration(g.Range(30, 90)) * time.Second
+		at := func(s int, d time.Duration) TOp { return TOp{Sess: s, Kind: tSleep, Until: t0 + d} }
+		ops = append(ops,
+			at(x, 0), TOp{Sess: x, Kind: tResume}, TOp{Sess: x, Kind: tReg, URI: "p.stream", WaitAck: true},
+			at(y, 0), TOp{Sess: y, Kind: tResume}, TOp{Sess: y, Kind: tSub, URI: "t.fill3", WaitAck: true},
+			at(y, time.Second), TOp{Sess: y, Kind: tStall},
+			at(x, 2*time.Second))
+		for i := 0; i < 6; i++ {
+			ops = append(ops, TOp{Sess: x, Kind: tPub, URI: "t.fill3", Opts: wamp.Dict{}})
+		}
+		ops = append(ops, at(y, 3*time.Second), TOp{Sess: y, Kind: tCall, URI: "p.stream", Opts: wamp.Dict{"receive_progress": true}},
+			at(x, 10*time.Second), TOp{Sess: x, Kind: tSub, URI: "t.later"},
+			at(y, time.Duration(g.Range(100, 240))*time.Second), TOp{Sess: y, Kind: tResume})
+	}
 	c.Res.NOps = len(ops)
 	c.Res.Sample = opsSample(ops, c, 0, 36)
 	c.Res.Shape = fmt.Sprintf("%x", hashStr(c.Res.Sample)^c.Spec.SchedSeed)
@@ -63,8 +88,14 @@ func runC07(c *Ctx) {
 		if staller[i] {
 			q = qs[g.Intn(len(qs))]
 		}
+		if i == deafCaller {
+			q = g.Range(1, 3)
+		}
 		s := NewAnySess(c, w, g, fmt.Sprintf("s%d", i), "r1", q, nil)
 		cl := NewTClient(s, []int{BehEcho, BehEcho, BehProgress, BehError, BehSlow, BehIgnore}[g.Intn(6)], time.Duration([]int{1, 100, 5000}[g.Intn(3)])*time.Millisecond)
+		if i == streamCallee {
+			cl.Beh = BehProgress
+		}
 		if !s.Join() {
 			c.Res.Tooling = "traffic session could not join"
 			return
